@@ -264,7 +264,27 @@ def same_outcome(a, b):
 
 
 def lut_entry(v):
-    return (float(v[0]), str(v[1]), float(v[2]), bool(v[4]))
+    """(base_value, dimensions, offset, prefixable) — the dimensions as the sympy object (compared
+    with sympy's structural `==`; printing 150 expressions per table is what would cost)"""
+    return (float(v[0]), v[1], float(v[2]), bool(v[4]))
+
+
+def same_entry(a, b):
+    return a is b or (float(a[0]) == float(b[0]) and float(a[2]) == float(b[2]) and bool(a[4]) == bool(b[4])
+                      and (a[1] is b[1] or a[1] == b[1]))
+
+
+_B3NAMES = ("(angle)", "(temperature)", "(logarithmic)")
+
+
+def base3_row(v):
+    """the row's dimension is exactly one of the three symbols the code tests with `is`"""
+    d = v[1]
+    return getattr(d, "is_Symbol", False) and d.name in _B3NAMES
+
+
+def base3_row_lost(v):
+    return base3_row(v) and not any(v[1] is s for s in base_symbols().values())
 
 
 def is_derived(k, lut):
@@ -283,7 +303,9 @@ def is_derived(k, lut):
 def contents(reg):
     """symbol -> entry, written-back prefixed entries left out"""
     lut = reg.lut
-    return {k: lut_entry(v) for k, v in lut.items() if not is_derived(k, lut)}
+    from unyt._unit_lookup_table import default_unit_symbol_lut as dflt
+
+    return {k: (dflt[k] if dflt.get(k) is v else v) for k, v in lut.items() if k in dflt or not is_derived(k, lut)}
 
 
 def canon_all(d):
@@ -315,14 +337,20 @@ def state_diff(q, r):
     if R is not Q:
         cr, cq = contents(R), contents(Q)
         for k in sorted(set(cq) | set(cr)):
-            if cq.get(k) == cr.get(k):
+            if k in cq and k in cr and same_entry(cq[k], cr[k]):
                 continue
             if k not in cr:
                 out.append("added-lost" if k not in dflt else "default-lost")
             elif k not in cq:
                 out.append("removed-default-back" if k in dflt else "spurious-row")
             else:
-                out.append("modified-default-reset" if k in dflt and cr[k] == lut_entry(dflt[k]) else "row-changed")
+                out.append("modified-default-reset" if k in dflt and same_entry(cr[k], dflt[k]) else "row-changed")
+        dq, dr = getattr(Q, "_derived_symbols", None), getattr(R, "_derived_symbols", None)
+        if dq is not None and dr is not None:
+            # rows the original registry knows to be written-back prefixed entries (it forgets them on
+            # the next edit) that the restored registry holds as ordinary rows
+            if any(k in R.lut and k not in dr for k in dq):
+                out.append("derived-marks-lost")
         for k, v in Q.lut.items():
             if k in R.lut and canon_all(v[1]) and not canon_all(R.lut[k][1]):
                 out.append("identity")
@@ -359,7 +387,7 @@ def intern_dims(d):
     return d.xreplace(m)
 
 
-REPAIRS = ["cache-seeded", "identity", "units", "modified-default-reset", "row-changed",
+REPAIRS = ["cache-seeded", "identity", "units", "derived-marks-lost", "modified-default-reset", "row-changed",
            "removed-default-back", "added-lost", "default-lost", "spurious-row", "unit-system"]
 
 
@@ -376,7 +404,7 @@ def repair(r, q, causes):
         lut = {k: (v[0], intern_dims(v[1])) + tuple(v[2:]) for k, v in lut.items()}
     cq, cr = contents(Q), contents(R)
     for k in set(cq) | set(cr):
-        if cq.get(k) == cr.get(k):
+        if k in cq and k in cr and same_entry(cq[k], cr[k]):
             continue
         if k not in cr:
             if allc or "added-lost" in causes or "default-lost" in causes:
@@ -390,6 +418,9 @@ def repair(r, q, causes):
                 lut.pop(kk, None)
     us = getattr(Q.unit_system if (allc or "unit-system" in causes) else R.unit_system, "name", "mks")
     reg = UnitRegistry(lut=lut, add_default_symbols=False, unit_system=us)
+    if hasattr(reg, "_derived_symbols"):
+        marks = getattr(Q if (allc or "derived-marks-lost" in causes) else R, "_derived_symbols", None) or ()
+        reg._derived_symbols = {k for k in marks if k in lut}
     u = r.units
     dims = intern_dims(u.dimensions) if (allc or "identity" in causes) else u.dimensions
     src = q.units if (allc or "units" in causes) else u
